@@ -108,7 +108,7 @@ type Ctx struct {
 func NewCtx(p *Prop, tier string, seed uint64, out string) *Ctx {
 	c := &Ctx{Prop: p, Tier: tier, Seed: seed, OutDir: out, Rng: NewRand(seed), ShardSize: 400,
 		Stats: map[string]int{}, nontrivial: map[uint64]struct{}{}, distinct: map[uint64]struct{}{}}
-	c.NoModel = tier == "search"
+	c.NoModel = tier == "search" || tier == "race"
 	os.MkdirAll(out, 0o755)
 	f, err := os.Create(filepath.Join(out, "cases.jsonl"))
 	if err != nil {
@@ -126,6 +126,8 @@ func (c *Ctx) N(quick, thorough, search int) int {
 		return thorough
 	case "search":
 		return search
+	case "race":
+		return (quick + 3) / 4 // the race detector makes everything 5-10x slower
 	}
 	return quick
 }
